@@ -176,6 +176,15 @@ CHECKS = {
    note="Kinds: Zahl, Kommazahl, Byte, Wahrheitswert, Buchstabe, Text, Zahlen Liste, Text Liste, a Kombination with padding, Variable holding Zahl / Text. No Byte/Kommazahl/Variable lists, no generic externs.",
    technique="TLA+ specification of the calling convention (prototype, visible effects, ownership) + TLC trace validation of generated C callees and DDP callers + ledger validation",
    ref="§4 C18"),
+ "C04": dict(
+   text="DDPStatic.tla states the static rules over the shared JSON AST (scope chain, redeclaration, the type rule of every expression and statement position, transparent aliases and opaque type "
+        "definitions, Konstanten, loop depth, final return, visibility of imported declarations and fields, article agreement). Base programs (generated semantic cases, a statement zoo with "
+        "nesting depth 3, a block using every public declaration of an imported module, every prelude function) are cut into units; exactly one fault is injected at every applicable site "
+        "(42 fault classes; capped per class by a seeded sample). TLC classifies every mutant (still well-formed: dropped), the real frontend and, for a sample, kddp give the verdict; "
+        "StaticTrace.tla requires ill-formed => at least one error diagnostic, non-zero exit and no artefact; every base unit must be well-formed, accepted and compiled.",
+   note="Generic declarations and operator overloads do not occur in the base programs. A crash of the frontend counts as rejection here (C03 reports crashes).",
+   technique="TLA+ static semantics (WellFormed) + fault injection classified by TLC + TLC trace validation of the real frontend's and kddp's verdicts",
+   ref="§4 C04"),
 }
 PENDING = {}
 
